@@ -66,7 +66,7 @@ def strip_meta(cfg):
     Returns:
         A copy of the configuration object excluding all metadata keys.
     """
-    if cfg:
+    if cfg is not None:
         cfg = recreate_branches(cfg, skip_keys=meta_keys)
     return cfg
 
